@@ -65,3 +65,20 @@ def restore_scope_export_contract(resolver, named, exports):
     for k in before:
         check("parent_symbols_kept", parent.symbols[k] == before[k])
     check("scope_symbols_unchanged", dict(named.symbols) == inner)
+
+
+def expression_node_reevaluates_contract(expression, resolver, tok, v1, v2):
+    """An operand / data value node holds an EXPRESSION, not a value: every get_value() evaluates it against the scopes as they are at that moment.  The
+    label pass asks for the value early (width guess) when forward labels and deferred macro arguments are not bound yet or an enclosing name of the same
+    spelling still shows through; emission must see the final binding, not what an earlier call saw."""
+    from a816.parse.nodes import ExpressionNode
+    node = ExpressionNode(expression, resolver, tok)
+    scope = resolver.current_scope
+    scope.add_symbol("e", v1)
+    check("first_value", node.get_value() == v1)
+    w1 = node.get_value_string_len()
+    scope.add_symbol("e", v2)
+    check("value_follows_the_binding_at_the_time_of_the_call", node.get_value() == v2)
+    inner_scope = resolver.scopes[1]
+    resolver.current_scope = inner_scope
+    check("value_follows_the_current_scope", node.get_value() == inner_scope.symbols["e"])
